@@ -6,6 +6,12 @@ A fit case is a point set with NaN rows interleaved.  The Lean specification is 
 point set *without* its NaN rows; the implementation is run on that clean set, on the set as given
 and on permutations of it, and every one of these fits must equal the specification (so: optimum,
 r², permutation invariance and NaN-row invariance are all checked against the same oracle).
+
+The same fit is also reached through *histories* on one object (the result of a fit depends only on the current
+points and weighting): an object created with other custom weights (of the same / of another length), another
+built-in weighting or other points, optionally switched built-in -> custom -> built-in, gets the case's points and
+weighting through the public setters (points then weights, weights then points, or only the one that differs)
+and is refitted with update_linreg().  Every history must equal the same specification value.
 """
 import itertools
 import math
@@ -61,16 +67,231 @@ def run_fit(rows, weighting, cw, prior=False):
                     cal.update_linreg()
                 else:
                     cal = Calibration.from_points(pts, weights=wts)
-                return {
-                    "gradient": fnum(cal.gradient) if cal.gradient is not None else None,
-                    "gradient_nan": isinstance(cal.gradient, float) and math.isnan(cal.gradient),
-                    "intercept": fnum(cal.intercept),
-                    "rsq": None if cal.rsq is None else ("nan" if math.isnan(cal.rsq) else float(cal.rsq)),
-                    "error": None if cal.error is None else ("nan" if math.isnan(cal.error) else float(cal.error)),
-                    "weights": [fnum(w) for w in np.asarray(cal.weights, dtype=np.float64).ravel()],
-                }
+                return observe(cal)
             except Exception as e:
                 return {"raises": type(e).__name__, "msg": str(e)[:200]}
+
+
+def observe(cal):
+    return {
+        "gradient": fnum(cal.gradient) if cal.gradient is not None else None,
+        "gradient_nan": isinstance(cal.gradient, float) and math.isnan(cal.gradient),
+        "intercept": fnum(cal.intercept),
+        "rsq": None if cal.rsq is None else ("nan" if math.isnan(cal.rsq) else float(cal.rsq)),
+        "error": None if cal.error is None else ("nan" if math.isnan(cal.error) else float(cal.error)),
+        "weights": [fnum(w) for w in np.asarray(cal.weights, dtype=np.float64).ravel()],
+    }
+
+
+def np_points(rows):
+    return np.array([[nan(x), nan(y)] for x, y in rows], dtype=np.float64).reshape(-1, 2)
+
+
+def np_weights(weighting, cw):
+    return weighting if cw is None else (weighting, np.array([nan(w) for w in cw], dtype=np.float64))
+
+
+# ---------------------------------------------------------------------------------------------- histories
+# A history is {"ops": [op, ...], "final": "pw" | "wp" | "p" | "w"}.  ops (the prefix, NOT judged):
+#   {"op": "new", "rows": rows | "case", "weighting": str | "case", "cw": list | None, "fit": bool}
+#        fit=True: Calibration.from_points, fit=False: the constructor with a stored line and statistics
+#   {"op": "points", "rows": rows | "case"}         cal.points = ...
+#   {"op": "weights", "weighting": str | "case", "cw": list | None}    cal.weights = ...
+#   {"op": "fit"}                                   cal.update_linreg()
+# "case" stands for the case's own rows / its weighting together with its custom vector.  final (judged): the
+# case's points and weighting are assigned through the setters in the given order ("p"/"w": only that one, the
+# other already holds the case's value) and update_linreg() is called.
+FINALS = ("pw", "wp", "p", "w")
+
+
+def resolve_history(h, rows, weighting, cw):
+    """-> (resolved ops, final) or None when the history is not a legal use of the public interface for THIS case
+    (custom vector of another length than the points at the time it is assigned or used, a "p"/"w" ending whose
+    other half does not already hold the case's value, malformed).  Decided here, for any case a shrinker derives."""
+    try:
+        final = h["final"]
+        if final not in FINALS or not h["ops"] or h["ops"][0]["op"] != "new":
+            return None
+        st_rows = st_w = st_cw = None
+        out = []
+        for k, op in enumerate(h["ops"]):
+            kind = op["op"]
+            if kind == "new" and k > 0:
+                return None
+            if kind in ("new", "points"):
+                r = rows if op["rows"] == "case" else op["rows"]
+                if any(len(x) != 2 for x in r):
+                    return None
+                st_rows = r
+            if kind in ("new", "weights"):
+                w, c = (weighting, cw) if op["weighting"] == "case" else (op["weighting"], op["cw"])
+                if c is None and w not in BUILTIN:
+                    return None
+                if c is not None and (len(c) != len(st_rows) or w in BUILTIN):
+                    return None
+                st_w, st_cw = w, c
+            if kind == "new":
+                out.append(("new", st_rows, st_w, st_cw, bool(op["fit"])))
+            elif kind == "points":
+                out.append(("points", st_rows))
+            elif kind == "weights":
+                out.append(("weights", st_w, st_cw))
+            elif kind == "fit":
+                if st_cw is not None and len(st_cw) != len(st_rows):
+                    return None
+                out.append(("fit",))
+            else:
+                return None
+        if final == "wp" and cw is not None and len(cw) != len(st_rows):
+            return None
+        if final == "p" and not (st_w == weighting and st_cw == cw):
+            return None
+        if final == "w" and st_rows != rows:
+            return None
+        return out, final
+    except (KeyError, TypeError, IndexError):
+        return None
+
+
+def history_features(ops, final, rows, weighting, cw):
+    f = {"hist-final:" + {"pw": "points-then-weights", "wp": "weights-then-points", "p": "points-only",
+                          "w": "weights-only"}[final]}
+    new = ops[0]
+    if new[3] is not None:
+        same = len(new[3]) == len(rows)
+        f.add("hist:prior-custom-same-length" if same else "hist:prior-custom-other-length")
+        if same and cw is None:
+            f.add("hist:prior-custom-same-length->builtin")
+    elif new[2] != weighting:
+        f.add("hist:prior-other-builtin")
+    if new[1] != rows:
+        f.add("hist:prior-other-points")
+    f.add("hist:prior-fitted" if new[4] else "hist:prior-constructed")
+    seq = [new[3] is not None] + [o[2] is not None for o in ops[1:] if o[0] == "weights"]
+    if final != "p":
+        seq.append(cw is not None)
+    seq = [k for k, _ in itertools.groupby(seq)]
+    for i in range(len(seq) - 2):
+        if seq[i:i + 3] == [False, True, False]:
+            f.add("hist:builtin->custom->builtin")
+        if seq[i:i + 3] == [True, False, True]:
+            f.add("hist:custom->builtin->custom")
+    return f
+
+
+def run_history(ops, final, rows, weighting, cw):
+    """real pewlib: the prefix builds the object (an exception there -> None: the prefix is not what is judged),
+    then the case's points/weighting are assigned and the object is refitted; observed like run_fit."""
+    from pewlib.calibration import Calibration
+
+    with warnings.catch_warnings():
+        warnings.simplefilter("ignore")
+        with np.errstate(all="ignore"):
+            try:
+                cal = None
+                for op in ops:
+                    if op[0] == "new":
+                        if op[4]:
+                            cal = Calibration.from_points(np_points(op[1]), weights=np_weights(op[2], op[3]))
+                        else:
+                            cal = Calibration(intercept=3.25, gradient=7.5, rsq=0.5, error=2.0,
+                                              points=np_points(op[1]), weights=np_weights(op[2], op[3]))
+                    elif op[0] == "points":
+                        cal.points = np_points(op[1])
+                    elif op[0] == "weights":
+                        cal.weights = np_weights(op[1], op[2])
+                    else:
+                        cal.update_linreg()
+            except Exception:
+                return None
+            try:
+                for step in final:
+                    if step == "p":
+                        cal.points = np_points(rows)
+                    else:
+                        cal.weights = np_weights(weighting, cw)
+                cal.update_linreg()
+                return observe(cal)
+            except Exception as e:
+                return {"raises": type(e).__name__, "msg": str(e)[:200]}
+
+
+def drop_row(h, i, n):
+    """shrinking: the history for the case without row i (vectors and point sets of the case's length lose entry i;
+    whether the result is still legal is decided by resolve_history)"""
+    ops = []
+    for op in h["ops"]:
+        op = dict(op)
+        if isinstance(op.get("rows"), list) and len(op["rows"]) == n:
+            op["rows"] = op["rows"][:i] + op["rows"][i + 1:]
+        if isinstance(op.get("cw"), list) and len(op["cw"]) == n:
+            op["cw"] = op["cw"][:i] + op["cw"][i + 1:]
+        ops.append(op)
+    return {**h, "ops": ops}
+
+
+def prior_rows(rng, m):
+    """m ordinary calibration points (distinct levels where the ladder has enough, positive responses)"""
+    ladder = rng.choice(LADDERS)
+    scale = 10.0 ** rng.choice([0, 0, -2, -1, 1, 2])
+    xs = sorted(rng.sample(ladder, m)) if m <= len(ladder) else [rng.choice(ladder) for _ in range(m)]
+    g = 10.0 ** rng.uniform(-1, 4)
+    c = rng.choice([0.0, 10.0 ** rng.uniform(-1, 3)])
+    out = [[float(x) * scale, abs((g * x * scale + c) * (1 + rng.gauss(0, 0.05))) + 10.0 ** rng.uniform(-3, 0)] for x in xs]
+    if m >= 3 and rng.random() < 0.2:
+        out[rng.randrange(m)][rng.choice([0, 1])] = None
+    if rng.random() < 0.3:
+        rng.shuffle(out)
+    return out
+
+
+def prior_cw(rng, m):
+    return [10.0 ** rng.uniform(-3, 3) if rng.random() < 0.8 else float(rng.choice([1, 2, 5])) for _ in range(m)]
+
+
+def make_histories(rng, rows, weighting, cw):
+    """every history class for one fit case (each class on every case; values and the variable choices random)"""
+    n = len(rows)
+    new = lambda r, w, c=None, fit=None: {"op": "new", "rows": r, "weighting": w, "cw": c,
+                                          "fit": (rng.random() < 0.8) if fit is None else fit}
+    other_b = lambda: rng.choice([b for b in BUILTIN if b != weighting])
+    other_n = lambda: rng.choice([k for k in (n + 1, n + 2, n - 1, 3, 2, 5) if k >= 0 and k != n])
+    hs = []
+    # (a) custom weights of the same length as the case's points: on the case's points (then only the weights are
+    #     assigned, or both) and on other points of that length
+    hs.append({"ops": [new("case", "Custom", prior_cw(rng, n))], "final": rng.choice(["w", "w", "pw", "wp"])})
+    hs.append({"ops": [new(prior_rows(rng, n), "Custom", prior_cw(rng, n))], "final": "pw"})
+    hs.append({"ops": [new(prior_rows(rng, n), "Custom", prior_cw(rng, n))], "final": "wp"})
+    # (b) custom weights of another length
+    m = other_n()
+    hs.append({"ops": [new(prior_rows(rng, m), "Custom", prior_cw(rng, m))], "final": "pw"})
+    if cw is None:
+        m = other_n()
+        hs.append({"ops": [new(prior_rows(rng, m), "Custom", prior_cw(rng, m))], "final": "wp"})
+    # (c) another built-in weighting
+    hs.append({"ops": [new("case", other_b())], "final": rng.choice(["w", "w", "pw", "wp"])})
+    hs.append({"ops": [new(prior_rows(rng, rng.choice([n, other_n()])), other_b())], "final": "pw"})
+    if cw is None:
+        hs.append({"ops": [new(prior_rows(rng, rng.choice([n, other_n()])), other_b())], "final": "wp"})
+    else:
+        hs.append({"ops": [new(prior_rows(rng, n), other_b())], "final": "wp"})
+    # (d) other points under the case's own weighting
+    m = n if cw is not None else rng.choice([n, other_n()])
+    pr = prior_rows(rng, m)
+    if cw is not None:  # a NaN weight of the case's vector stays on a row that is set aside
+        pr = [[r[0], None] if cw[i] is None else r for i, r in enumerate(pr)]
+    hs.append({"ops": [new(pr, "case")], "final": rng.choice(["p", "p", "pw", "wp"])})
+    # built-in -> custom -> built-in on one object (for a custom case the chain is continued to the case's vector)
+    ops = [new(rng.choice(["case", prior_rows(rng, n)]), rng.choice(BUILTIN)),
+           {"op": "weights", "weighting": "Custom", "cw": prior_cw(rng, n)}]
+    if rng.random() < 0.7:
+        ops.append({"op": "fit"})
+    if cw is not None or rng.random() < 0.3:
+        ops.append({"op": "weights", "weighting": rng.choice(BUILTIN), "cw": None})
+        if rng.random() < 0.5:
+            ops.append({"op": "fit"})
+    hs.append({"ops": ops, "final": rng.choice((["w"] if ops[0]["rows"] == "case" else []) + ["pw", "wp"])})
+    return hs
 
 
 def drv_fit(ctx, rows, weighting, cw):
@@ -155,9 +376,12 @@ class C06(Prop):
             "positive responses (line + noise over 8 decades of gradient, exact lines, log-uniform scatter, constant), "
             "0..3 NaN rows (x, y or both NaN; the finite cell chosen below the smallest level, at 0, or random) at any "
             "position, the seven built-in weightings and custom positive weights, all permutations of sets <= 5 rows "
-            "(sampled above); calibrate cases: arrays of 0..3 dimensions incl. empty and NaN, gradients over decades, "
+            "(sampled above); every fit case is also reached through histories on one object (prior object with custom "
+            "weights of the same / another length, another built-in weighting, other points, built-in -> custom -> "
+            "built-in; the case's points and weighting assigned by the setters in both orders, or only the differing "
+            "one, then update_linreg()); calibrate cases: arrays of 0..3 dimensions incl. empty and NaN, gradients over decades, "
             "identity and fitted calibrations. non-trivial = carries a NaN row, a zero level, a permutation, custom "
-            "weights or a non-1-D array; distinct by canonical case hash")
+            "weights, a history or a non-1-D array; distinct by canonical case hash")
     trusted = [
         "np.polynomial.polynomial.polyfit(x, y, 1, w=sqrt(w)) returns the minimiser of the weighted residual sum of a "
         "full-rank system and np.cov(aweights=w) the weighted covariance matrix; the correspondence measures both "
@@ -249,7 +473,8 @@ class C06(Prop):
             perms = [list(p) for p in itertools.permutations(range(m))][1:]
         else:
             perms = [list(reversed(range(m)))] + [rng.sample(range(m), m) for _ in range(3 if not big else 5)]
-        return {"kind": "fit", "rows": rows, "weighting": weighting, "cw": cw, "perms": perms}
+        return {"kind": "fit", "rows": rows, "weighting": weighting, "cw": cw, "perms": perms,
+                "hists": make_histories(rng, rows, weighting, cw)}
 
     def gen_cal(self, rng, tier):
         shape = rng.choice([[], [0], [1], [5], [2, 3], [3, 1], [0, 3], [2, 2, 2], [7], [4, 4]])
@@ -278,6 +503,22 @@ class C06(Prop):
         return self.gen_cal(rng, tier) if rng.random() < 0.2 else self.gen_fit(rng, tier)
 
     def targeted(self, tier):
+        for i, c in enumerate(self.targeted_plain(tier)):
+            if c["kind"] == "fit":
+                c["hists"] = make_histories(core.case_rng(0, self.id, "targeted-hists", i), c["rows"], c["weighting"], c["cw"])
+            yield c
+        # the history classes spelled out on one small set: custom vector of the same length -> every built-in
+        base = [[0.0, 1.0], [1.0, 2.0], [2.0, 4.5], [5.0, 9.0]]
+        for w in BUILTIN:
+            for final in ("w", "pw", "wp"):
+                yield {"kind": "fit", "rows": base, "weighting": w, "cw": None, "perms": [], "hists": [
+                    {"ops": [{"op": "new", "rows": "case", "weighting": "Custom", "cw": [5.0, 0.25, 3.0, 0.5], "fit": True}],
+                     "final": final},
+                    {"ops": [{"op": "new", "rows": "case", "weighting": "Equal" if w != "Equal" else "x", "cw": None, "fit": True},
+                             {"op": "weights", "weighting": "Custom", "cw": [5.0, 0.25, 3.0, 0.5]}, {"op": "fit"}],
+                     "final": final}]}
+
+    def targeted_plain(self, tier):
         base = [[0.0, 1.0], [1.0, 2.0], [2.0, 4.0]]
         allp = lambda m: [list(p) for p in itertools.permutations(range(m))][1:]
         for w in BUILTIN:
@@ -347,9 +588,29 @@ class C06(Prop):
         impl, model, spec = [], [], []
         spec_ok = model_ok = True
         variants.append(("refit", rows, cw))
+        hist_feats, nhist = set(), 0
+        for h in case.get("hists", []):
+            r = resolve_history(h, rows, weighting, cw)
+            if r is not None:
+                variants.append(("hist", r, None))
+        given_rep = None
         for name, vrows, vcw in variants:
-            got = run_fit(vrows, weighting, vcw, prior=(name == "refit"))
-            rep = base if name == "clean" else drv_fit(ctx, vrows, weighting, vcw)
+            if name == "hist":
+                got = run_history(vrows[0], vrows[1], rows, weighting, cw)
+                if got is None:  # the prefix (not judged) could not be built
+                    continue
+                nhist += 1
+                hist_feats |= history_features(vrows[0], vrows[1], rows, weighting, cw)
+            else:
+                got = run_fit(vrows, weighting, vcw, prior=(name == "refit"))
+            if name == "clean":
+                rep = base
+            elif name in ("given", "refit", "hist"):  # the current points and weighting are the case's own
+                if given_rep is None:
+                    given_rep = drv_fit(ctx, rows, weighting, cw)
+                rep = given_rep
+            else:
+                rep = drv_fit(ctx, vrows, weighting, vcw)
             mv = fit_view(rep, "model")
             impl.append(got)
             model.append(mv)
@@ -381,18 +642,21 @@ class C06(Prop):
             elif m_ok:
                 m_ok = False
             model_ok = model_ok and m_ok
-        feats = self.fit_features(case, clean_rows, fitted, hyp, check_rsq)
+        feats = self.fit_features(case, clean_rows, fitted, hyp, check_rsq, hist_feats)
         if dominant:  # always counted in the evidence; only r² is skipped, gradient/intercept are still compared
             feats = set(feats) | {"dominant-weight(1-Σw²/(Σw)²<1e-12: r2 not compared)"}
         return outcome({"variants": impl}, {"variants": model}, {"variants": spec}, spec_ok=spec_ok, model_ok=model_ok,
                        undetermined=undet, hyp=(hyp or not fitted), features=feats,
-                       note=f"variants: clean, given, {len(case['perms'])} permutations")
+                       note=f"variants: clean, given, {len(case['perms'])} permutations, refit, {nhist} histories")
 
-    def fit_features(self, case, clean, fitted, hyp, check_rsq):
+    def fit_features(self, case, clean, fitted, hyp, check_rsq, hist_feats=()):
         rows, w = case["rows"], case["weighting"]
         f = {f"w:{w}", f"usable{min(len(clean), 6)}{'+' if len(clean) > 6 else ''}"}
         nanrows = [r for r in rows if is_nan_row(r)]
         nontrivial = False
+        if hist_feats:  # the fit was also reached through at least one history on one object
+            f |= set(hist_feats)
+            nontrivial = True
         if nanrows:
             nontrivial = True
             for r in nanrows:
@@ -527,6 +791,17 @@ class C06(Prop):
                 yield {**case, "shape": [1], "conc": case["conc"][:1]}
             return
         rows, cw, perms = case["rows"], case["cw"], case["perms"]
+        hists = case.get("hists", [])
+        if len(hists) > 1:
+            for h in hists:
+                yield {**case, "hists": [h]}
+        if hists and perms:
+            yield {**case, "perms": []}
+        if len(hists) == 1:
+            h = hists[0]
+            for k in range(1, len(h["ops"])):
+                yield {**case, "hists": [{**h, "ops": h["ops"][:k] + h["ops"][k + 1:]}]}
+            yield {**case, "hists": []}
         if len(perms) > 1:
             for p in perms:
                 yield {**case, "perms": [p]}
@@ -540,7 +815,8 @@ class C06(Prop):
                 q = [j - (j > i) for j in p if j != i]
                 if q != list(range(len(q))):
                     newp.append(q)
-            yield {**case, "rows": [rows[j] for j in keep], "cw": None if cw is None else [cw[j] for j in keep], "perms": newp}
+            yield {**case, "rows": [rows[j] for j in keep], "cw": None if cw is None else [cw[j] for j in keep], "perms": newp,
+                   "hists": [drop_row(h, i, len(rows)) for h in hists]}
         for i, r in enumerate(rows):
             for k in (0, 1):
                 if r[k] is not None and r[k] != float(round(r[k])) and abs(r[k]) >= 1:
